@@ -13,8 +13,8 @@
 //!     of the same class (grids with holes, closed solids, several components, with rotated / reversed face storage),
 //!     and on the outputs of `Mesh::create_box` / `Mesh::create_cylinder`; every face list with an edge in three
 //!     faces must be refused by `calc_edges`.  Inputs outside that class (vertex-only contacts, inconsistent
-//!     winding) are NOT given to `calc_edges` / `get_patch_boundary_points`: the unchanged code does not terminate /
-//!     panics there (DESIGN D7);
+//!     winding) are evaluated by the groups (g) and (i): `calc_edges` answers Ok with a full edge table when the boundary
+//!     edges still form closed loops, and Err - returning, not hanging or panicking - when they do not (DESIGN D7, repaired);
 //! (d) edge lengths of `calc_edges` against |v1 - v0| of the stored vertices to RELATIVE 1e-12 on grids, boxes and
 //!     cylinders of pitch 5e-6 .. 1 placed at (0,0,0), (1500,-2000,350), (-1536,2048,352), (123456.789,-98765.4321,5000.5)
 //!     and (-0.001,0.002,1e6);
@@ -30,6 +30,10 @@
 //!     and one predecessor - closed surfaces with any faces flipped, disks with flipped interior faces.  The hand-built
 //!     meshes of (c) additionally with reversed vertex numbering and with the interior vertices numbered last.
 //! (h) the clauses of (c) on few-face meshes over a 70000-vertex list (vertex ids on both sides of 2^16).
+//! (i) D7 (repaired): `calc_edges` returns Err, under the watchdog, whenever no edge is in more than two faces but the directed
+//!     boundary edges are not a successor bijection (a boundary vertex left or entered by two boundary edges): bow-ties, grids
+//!     sharing a corner, fins touching at a vertex, open meshes with faces flipped along the boundary, and every such ordered
+//!     list of 2 / 3 faces over 5 vertices.  Together with (c) and (g): Err EXACTLY outside class G on the enumerated lists.
 use super::{close, Report};
 use crate::geom3::{Mesh, Point3};
 use std::collections::HashSet;
@@ -354,7 +358,7 @@ fn in_class_g(faces: &[[u32; 3]]) -> bool {
         if c == 1 { bd.push(e); }
     } }
     for (i, a) in bd.iter().enumerate() { for b in bd[..i].iter() { if a.0 == b.0 || a.1 == b.1 { return false; } } }
-    true
+    bd.iter().all(|a| bd.iter().any(|b| b.0 == a.1))
 }
 fn inconsistent(faces: &[[u32; 3]]) -> bool {
     let mut de: Vec<(u32, u32)> = Vec::new();
@@ -903,6 +907,106 @@ fn run_many_chains(r: &mut Report, p: &Progress) {
     } } }
 }
 
+// ------------------------------------------------------------------------------------------------ (i) boundary edges that do not form closed loops (D7)
+/// `calc_edges` on face lists with no edge in more than two faces that are NOT in class G: some boundary vertex is left, or
+/// entered, by two boundary edges (faces touching at a boundary vertex only: bow-ties, fins; a face flipped along the
+/// boundary).  There are no boundary loops to report: the call must RETURN (watchdog) and answer Err, not hang or panic.
+/// Run LAST: on a tree without the repair the first such input never returns and the stuck thread dies with the process
+const D7_CLAUSE: &str = "edges: a mesh whose boundary edges do not form closed loops (faces touching at a boundary vertex only, winding flipped along the boundary) is refused (Err)";
+fn check_refused(r: &mut Report, verts: &[Point3], faces: &[[u32; 3]], label: &str) {
+    r.case();
+    let mesh = Mesh::new(verts.to_vec(), faces.to_vec(), false);
+    for _run in 0..2 {
+        let res = mesh.calc_edges();
+        r.check(res.is_err(), D7_CLAUSE, || format!("{} faces {:?}: calc_edges returned Ok with boundary_loops {:?}", label, faces, res.as_ref().map(|e| e.boundary_loops.clone()).unwrap_or_default()));
+    }
+}
+fn run_open_boundaries(r: &mut Report, p: &Progress) {
+    let mut buf: Vec<i64> = Vec::new();
+    let (mut n_contact, mut n_flipped, mut n_ok) = (0usize, 0usize, 0usize);
+    // larger meshes first (so that the reported inputs are the readable ones)
+    let mut fam: Vec<(String, Vec<Point3>, Vec<[u32; 3]>)> = Vec::new();
+    fam.push(("two triangles sharing one vertex (bow-tie)".into(), base_vertices(), vec![[0, 1, 2], [0, 3, 4]]));
+    fam.push(("two triangles sharing one vertex, opposite winding".into(), base_vertices(), vec![[0, 1, 2], [0, 4, 3]]));
+    fam.push(("two adjacent triangles, one flipped".into(), base_vertices(), vec![[0, 1, 2], [1, 2, 3]]));
+    // two 2x2 grids sharing one corner vertex; a 3x3 grid and a fin triangle touching it at a boundary vertex / at an interior vertex
+    let (v1, f1) = grid(2, 2, &[], 0.0, 0);
+    let (v2, f2) = grid(2, 2, &[], 5.0, 9);
+    let mut v = v1.clone(); v.extend(v2.iter().skip(1).copied());
+    let remap = |i: u32| if i == 9 { 8 } else { i - 1 };
+    let mut f = f1.clone(); f.extend(f2.iter().map(|t| [remap(t[0]), remap(t[1]), remap(t[2])]));
+    fam.push(("two 2x2 grids sharing one corner vertex".into(), v, f));
+    let (gv, gf) = grid(3, 3, &[], 0.0, 0);
+    let mut v = gv.clone(); v.push(Point3::new(0.5, 0.5, 4.0)); v.push(Point3::new(1.5, 0.5, 4.0));
+    let mut f = gf.clone(); f.push([1, 16, 17]);
+    fam.push(("3x3 grid + a fin triangle touching it at the boundary vertex 1 only".into(), v.clone(), f));
+    let mut f = gf.clone(); f.push([5, 16, 17]);
+    fam.push(("3x3 grid + a fin triangle touching it at the interior vertex 5 only".into(), v, f));
+    for (name, v, f) in fam.iter() {
+        buf.clear();
+        for t in f.iter() { buf.extend_from_slice(&[t[0] as i64, t[1] as i64, t[2] as i64]); }
+        p.at(&buf);
+        if has_edge_in_three_faces(f) { r.case(); r.check(false, "internal: hand-built mesh has no edge in three faces", || format!("{} {:?}", name, f)); continue; }
+        if in_class_g(f) {
+            // a contact at a vertex that is INTERIOR to the other piece leaves the boundary edges in closed loops: edge table expected
+            n_ok += 1;
+            r.case();
+            let mesh = Mesh::new(v.clone(), f.clone(), false);
+            check_edge_table(r, &mesh, v, f, name);
+        } else {
+            n_contact += 1;
+            check_refused(r, v, f, name);
+        }
+    }
+    // open meshes with faces flipped: in class G -> edge table (group g); outside -> Err
+    let mut fam: Vec<(String, Vec<Point3>, Vec<[u32; 3]>)> = Vec::new();
+    let (v, f) = grid(3, 3, &[], 0.0, 0); fam.push(("3x3 grid".into(), v, f));
+    let (v, f) = grid(5, 3, &[(1, 1), (3, 1)], 0.0, 0); fam.push(("5x3 grid with two holes".into(), v, f));
+    let cy = Mesh::create_cylinder(1.0, 2.0, 6);
+    fam.push(("create_cylinder(1, 2, 6)".into(), cy.vertices().to_vec(), cy.faces().to_vec()));
+    let bx = Mesh::create_box(2.0, 3.0, 4.0, false);
+    fam.push(("create_box(2, 3, 4) without its first face".into(), bx.vertices().to_vec(), bx.faces()[1..].to_vec()));
+    for (name, v, f) in fam.iter() {
+        let nf = f.len();
+        let mut sets: Vec<Vec<usize>> = Vec::new();
+        for a in 0..nf { sets.push(vec![a]); }
+        for a in 0..nf { for b in 0..a { if (a + b) % 3 == 0 { sets.push(vec![b, a]); } } }
+        sets.push((0..nf).step_by(2).collect());
+        sets.push((0..nf / 2).collect());
+        for which in sets.iter() {
+            let fs = flip(f, which);
+            if has_edge_in_three_faces(&fs) || in_class_g(&fs) { continue; }
+            n_flipped += 1;
+            buf.clear();
+            for t in fs.iter() { buf.extend_from_slice(&[t[0] as i64, t[1] as i64, t[2] as i64]); }
+            p.at(&buf);
+            check_refused(r, v, &fs, &format!("{} with faces {:?} flipped", name, which));
+        }
+    }
+    // every ordered list of 2 and 3 faces over 5 vertices outside class G (no edge in three faces)
+    let verts = base_vertices();
+    let mut tri: Vec<[u32; 3]> = Vec::new();
+    for a in 0..5u32 { for b in 0..5u32 { for c in 0..5u32 { if a != b && b != c && a != c { tri.push([a, b, c]); } } } }
+    let mut n_small = 0usize;
+    for len in 2..=3usize {
+        let mut idx = vec![0usize; len];
+        loop {
+            let faces: Vec<[u32; 3]> = idx.iter().map(|&i| tri[i]).collect();
+            if !has_edge_in_three_faces(&faces) && !in_class_g(&faces) {
+                n_small += 1;
+                buf.clear();
+                for f in faces.iter() { buf.extend_from_slice(&[f[0] as i64, f[1] as i64, f[2] as i64]); }
+                p.at(&buf);
+                check_refused(r, &verts, &faces, "Mesh::new(5 fixed vertices)");
+            }
+            let mut k = 0;
+            while k < len { idx[k] += 1; if idx[k] < tri.len() { break; } idx[k] = 0; k += 1; }
+            if k == len { break; }
+        }
+    }
+    r.check(n_contact >= 5 && n_ok >= 1 && n_flipped >= 50 && n_small >= 10000, "input space: meshes whose boundary edges do not form closed loops occur (vertex-only contacts, faces flipped along the boundary, small lists)", || format!("{} hand-built, {} flipped, {} small lists", n_contact, n_flipped, n_small));
+}
+
 // ------------------------------------------------------------------------------------------------ (h) large vertex ids
 /// meshes with a few faces over a LARGE vertex list (70000 vertices): vertex ids on both sides of 2^16, ids that agree
 /// modulo 2^16, and ids whose bit 16 lands on another id's low bits when two ids are packed into one word - every
@@ -936,7 +1040,7 @@ fn run_large_ids(r: &mut Report, p: &Progress) {
 }
 
 pub fn run() -> Option<Report> {
-    let mut r = Report::new("chained_indices: every list of <= 4 pairs over vertex ids 0..5 (406901 lists); clusters_from_sparse: every subset of a 2x2x2 block, a 3x3x1 slab and a 2x2x3 block of voxels (4864 sets, each twice); Mesh::calc_edges / get_patches / get_patch_boundary_points: every ordered list of <= 3 faces over 5 vertices that is consistently wound and free of vertex-only contacts, 11 larger hand-built meshes of that class in 6 storage variants each, create_box (4 sizes) and create_cylinder (steps 3..=16, 2 sizes), repeated 2-3 times per mesh for hash order; every <= 3 face list with an edge in three faces must be refused; each group under a progress watchdog (6 s per input). Vertex-only contacts and inconsistent winding are excluded for calc_edges / patch boundaries (D7). Edge lengths to relative 1e-12 on grids (1x1, 4x3, 12x9), boxes and 12-step cylinders of pitch 5e-6 .. 1 at 5 offsets up to 1e6 from the origin. get_patches on ANY face list (partition and edge-connected patches always, maximality when no directed edge occurs twice): all lists of <= 2 faces over 5 vertices x 64 calls, 3-face lists starting with [0,1,2] / [0,2,1] x 8 calls, box / cylinder / grid / strip / tetrahedron with single faces, pairs, every other and all faces flipped x 64 calls. chained_indices on 1..12 separate chains / closed loops of 1..9 links in 4 storage orders. ROUND 4: the hand-built meshes (+ a disk around the LAST vertex, a 4x4 grid) also with the vertex numbering reversed and with the interior vertices numbered last (lexicographically last edge interior); calc_edges on INCONSISTENTLY wound meshes whose boundary edges still give every boundary vertex one successor and one predecessor (closed surfaces with any faces flipped, disks with flipped interior faces): every such ordered list of 3 faces over 5 vertices and of 4 faces over 4 vertices, boxes / tetrahedron / octahedron / both / 3x3, 4x4, 5x3-with-holes grids with single faces, pairs, every 2nd, every 3rd and the first half of the faces flipped, in 2 storage variants: edge table produced (not Err), each undirected edge once with its length, face -> edges, boundary loops; LARGE vertex ids: two vertex-disjoint faces over a 70000-vertex list (3 first faces x every ordered triple of 8 ids on both sides of 2^16, incl. ids that collide when two ids are packed with a 16-bit shift) and two separate 40-face strips on ids 0.. and {65500, 65530, 65536, 69000}..: all clauses of the mesh group (edge table, patches, patch boundaries)");
+    let mut r = Report::new("chained_indices: every list of <= 4 pairs over vertex ids 0..5 (406901 lists); clusters_from_sparse: every subset of a 2x2x2 block, a 3x3x1 slab and a 2x2x3 block of voxels (4864 sets, each twice); Mesh::calc_edges / get_patches / get_patch_boundary_points: every ordered list of <= 3 faces over 5 vertices that is consistently wound and free of vertex-only contacts, 11 larger hand-built meshes of that class in 6 storage variants each, create_box (4 sizes) and create_cylinder (steps 3..=16, 2 sizes), repeated 2-3 times per mesh for hash order; every <= 3 face list with an edge in three faces must be refused; each group under a progress watchdog (6 s per input). Vertex-only contacts and inconsistent winding: see ROUND 4 and D7 below (patch boundaries are not evaluated on them). Edge lengths to relative 1e-12 on grids (1x1, 4x3, 12x9), boxes and 12-step cylinders of pitch 5e-6 .. 1 at 5 offsets up to 1e6 from the origin. get_patches on ANY face list (partition and edge-connected patches always, maximality when no directed edge occurs twice): all lists of <= 2 faces over 5 vertices x 64 calls, 3-face lists starting with [0,1,2] / [0,2,1] x 8 calls, box / cylinder / grid / strip / tetrahedron with single faces, pairs, every other and all faces flipped x 64 calls. chained_indices on 1..12 separate chains / closed loops of 1..9 links in 4 storage orders. ROUND 4: the hand-built meshes (+ a disk around the LAST vertex, a 4x4 grid) also with the vertex numbering reversed and with the interior vertices numbered last (lexicographically last edge interior); calc_edges on INCONSISTENTLY wound meshes whose boundary edges still give every boundary vertex one successor and one predecessor (closed surfaces with any faces flipped, disks with flipped interior faces): every such ordered list of 3 faces over 5 vertices and of 4 faces over 4 vertices, boxes / tetrahedron / octahedron / both / 3x3, 4x4, 5x3-with-holes grids with single faces, pairs, every 2nd, every 3rd and the first half of the faces flipped, in 2 storage variants: edge table produced (not Err), each undirected edge once with its length, face -> edges, boundary loops; LARGE vertex ids: two vertex-disjoint faces over a 70000-vertex list (3 first faces x every ordered triple of 8 ids on both sides of 2^16, incl. ids that collide when two ids are packed with a 16-bit shift) and two separate 40-face strips on ids 0.. and {65500, 65530, 65536, 69000}..: all clauses of the mesh group (edge table, patches, patch boundaries); D7 (repaired): calc_edges returns Err (and returns: 6 s watchdog) when no edge is in more than two faces but the boundary edges do not form closed loops - bow-ties, two grids sharing a corner, fins touching a grid at one vertex, 3x3 / 5x3-with-holes grids, a cylinder and an open box with single faces, pairs, every 2nd and the first half of the faces flipped (those outside class G), and every ordered list of 2 / 3 faces over 5 vertices outside class G");
     guarded(&mut r, "chaining", "pairs (flattened)", run_chains);
     guarded(&mut r, "voxels", "voxels (flattened x,y,z)", run_voxels);
     guarded(&mut r, "mesh", "faces (flattened)", run_small_meshes);
@@ -946,6 +1050,8 @@ pub fn run() -> Option<Report> {
     guarded(&mut r, "patches (any winding)", "faces (flattened)", run_flipped_meshes);
     guarded(&mut r, "mesh (inconsistent winding)", "faces (flattened)", run_inconsistent_meshes);
     guarded(&mut r, "mesh (large vertex ids)", "case id", run_large_ids);
+    // LAST: on a tree without the D7 repair the first input of this group never returns
+    guarded(&mut r, "mesh (boundary edges do not form closed loops)", "faces (flattened)", run_open_boundaries);
     guarded(&mut r, "chaining", "k chains / links / closed / storage order", run_many_chains);
     Some(r)
 }
